@@ -283,7 +283,7 @@ pub proof fn lemma_cfg_g_ensure<'a>(st: CfgSt<'a>, subs: Map<Tid, Term<Sub>>, ti
 
 pub proof fn lemma_cfg_g_intra<'a>(st: CfgSt<'a>, subs: Map<Tid, Term<Sub>>, source: NodeIndex, tid: Tid, jump: &'a Term<Jmp>, uc: Option<&'a Term<Jmp>>)
     requires
-        cfg_ginv(st, subs), cfg_is_end(st, source), cfg_has_block(subs, tid),
+        cfg_ginv(st, subs), cfg_is_end(st, source), cfg_has_block(subs, tid), cfg_untaken_ok(uc),
         cfg_small(cfg_intra(st, subs, source, tid, jump, uc)),
     ensures
         cfg_ginv(cfg_intra(st, subs, source, tid, jump, uc), subs),
@@ -301,7 +301,7 @@ pub proof fn lemma_cfg_g_intra<'a>(st: CfgSt<'a>, subs: Map<Tid, Term<Sub>>, sou
 
 pub proof fn lemma_cfg_g_indirect<'a>(st: CfgSt<'a>, subs: Map<Tid, Term<Sub>>, source: NodeIndex, jump: &'a Term<Jmp>, uc: Option<&'a Term<Jmp>>, targets: Seq<Tid>, n: int)
     requires
-        cfg_ginv(st, subs), cfg_is_end(st, source), 0 <= n <= targets.len(), cfg_targets_exist(subs, targets),
+        cfg_ginv(st, subs), cfg_is_end(st, source), 0 <= n <= targets.len(), cfg_targets_exist(subs, targets), cfg_untaken_ok(uc),
         cfg_small(cfg_indirect_n(st, subs, source, jump, uc, targets, n)),
     ensures
         cfg_ginv(cfg_indirect_n(st, subs, source, jump, uc, targets, n), subs),
@@ -400,7 +400,7 @@ pub proof fn lemma_cfg_g_call<'a>(st: CfgSt<'a>, subs: Map<Tid, Term<Sub>>, ext:
 pub proof fn lemma_cfg_g_jump_edge<'a>(st: CfgSt<'a>, subs: Map<Tid, Term<Sub>>, ext: Set<Tid>, source: NodeIndex, jump: &'a Term<Jmp>, uc: Option<&'a Term<Jmp>>)
     requires
         cfg_ginv(st, subs), cfg_is_end(st, source),
-        cfg_jump_wf(subs, *cfg_blk(st.nodes[source.i as int]), *jump),
+        cfg_jump_wf(subs, *cfg_blk(st.nodes[source.i as int]), *jump), cfg_untaken_ok(uc),
         cfg_small(cfg_jump_edge(st, subs, ext, source, jump, uc)),
     ensures
         cfg_ginv(cfg_jump_edge(st, subs, ext, source, jump, uc), subs),
@@ -653,7 +653,7 @@ pub proof fn lemma_cfg_len_sub_blocks<'a>(st: CfgSt<'a>, f: &'a Term<Sub>, n: in
 
 pub proof fn lemma_cfg_g_call_return_1<'a>(st: CfgSt<'a>, subs: Map<Tid, Term<Sub>>, f_ret: &'a Term<Sub>, rs: NodeIndex, cn: NodeIndex, rn: NodeIndex)
     requires
-        cfg_ginv(st, subs), rs.i < st.nodes.len(), cn.i < st.nodes.len(), rn.i < st.nodes.len(),
+        cfg_ginv(st, subs), cfg_is_return_end(st, rs), cfg_ret_ok(st.nodes, (cn, rn)),
         cfg_small(cfg_call_return_1(st, f_ret, rs, cn, rn)),
     ensures
         cfg_ginv(cfg_call_return_1(st, f_ret, rs, cn, rn), subs),
@@ -679,8 +679,8 @@ pub proof fn lemma_cfg_g_call_return_1<'a>(st: CfgSt<'a>, subs: Map<Tid, Term<Su
 
 pub proof fn lemma_cfg_g_call_return_n<'a>(st: CfgSt<'a>, subs: Map<Tid, Term<Sub>>, f_ret: &'a Term<Sub>, rs: NodeIndex, list: Seq<(NodeIndex, NodeIndex)>, n: int)
     requires
-        cfg_ginv(st, subs), rs.i < st.nodes.len(), 0 <= n <= list.len(),
-        forall |i: int| 0 <= i < list.len() ==> (#[trigger] list[i]).0.i < st.nodes.len() && list[i].1.i < st.nodes.len(),
+        cfg_ginv(st, subs), cfg_is_return_end(st, rs), 0 <= n <= list.len(),
+        forall |i: int| 0 <= i < list.len() ==> cfg_ret_ok(st.nodes, #[trigger] list[i]),
         cfg_small(cfg_call_return_n(st, f_ret, rs, list, n)),
     ensures
         cfg_ginv(cfg_call_return_n(st, f_ret, rs, list, n), subs),
@@ -700,7 +700,7 @@ pub proof fn lemma_cfg_g_call_return_n<'a>(st: CfgSt<'a>, subs: Map<Tid, Term<Su
 }
 
 pub proof fn lemma_cfg_g_call_return<'a>(st: CfgSt<'a>, subs: Map<Tid, Term<Sub>>, f_ret: &'a Term<Sub>, rs: NodeIndex)
-    requires cfg_ginv(st, subs), rs.i < st.nodes.len(), cfg_small(cfg_call_return(st, f_ret, rs)),
+    requires cfg_ginv(st, subs), cfg_is_return_end(st, rs), cfg_small(cfg_call_return(st, f_ret, rs)),
     ensures
         cfg_ginv(cfg_call_return(st, f_ret, rs), subs),
         cfg_gstep(st, cfg_call_return(st, f_ret, rs)),
@@ -708,7 +708,7 @@ pub proof fn lemma_cfg_g_call_return<'a>(st: CfgSt<'a>, subs: Map<Tid, Term<Sub>
 {
     if st.ra.contains_key(f_ret.tid) {
         let list = st.ra[f_ret.tid];
-        assert forall |i: int| 0 <= i < list.len() implies (#[trigger] list[i]).0.i < st.nodes.len() && list[i].1.i < st.nodes.len() by {
+        assert forall |i: int| 0 <= i < list.len() implies cfg_ret_ok(st.nodes, #[trigger] list[i]) by {
             assert(cfg_ret_ok(st.nodes, st.ra[f_ret.tid][i]));
         }
         lemma_cfg_g_call_return_n(st, subs, f_ret, rs, list, list.len() as int);
@@ -720,7 +720,7 @@ pub proof fn lemma_cfg_g_call_return<'a>(st: CfgSt<'a>, subs: Map<Tid, Term<Sub>
 pub proof fn lemma_cfg_g_returns_n<'a>(st: CfgSt<'a>, subs: Map<Tid, Term<Sub>>, list: Seq<NodeIndex>, n: int)
     requires
         cfg_ginv(st, subs), 0 <= n <= list.len(),
-        forall |i: int| 0 <= i < list.len() ==> (#[trigger] list[i]).i < st.nodes.len(),
+        forall |i: int| 0 <= i < list.len() ==> cfg_is_return_end(st, #[trigger] list[i]),
         cfg_small(cfg_returns_n(st, list, n)),
     ensures
         cfg_ginv(cfg_returns_n(st, list, n), subs),
@@ -739,17 +739,20 @@ pub proof fn lemma_cfg_g_returns_n<'a>(st: CfgSt<'a>, subs: Map<Tid, Term<Sub>>,
     }
 }
 
-/// the elements of cfg_return_nodes are existing nodes
+/// the elements of cfg_return_nodes are existing BlkEnd nodes whose block contains a return instruction
 pub proof fn lemma_cfg_return_nodes_bound<'a>(nodes: Seq<Node<'a>>, n: int)
     requires 0 <= n <= nodes.len(), nodes.len() <= usize::MAX,
-    ensures forall |i: int| 0 <= i < cfg_return_nodes(nodes, n).len() ==> (#[trigger] cfg_return_nodes(nodes, n)[i]).i < n,
+    ensures forall |i: int| 0 <= i < cfg_return_nodes(nodes, n).len() ==> (#[trigger] cfg_return_nodes(nodes, n)[i]).i < n
+        && nodes[cfg_return_nodes(nodes, n)[i].i as int] is BlkEnd
+        && cfg_has_return_jmp(cfg_blk(nodes[cfg_return_nodes(nodes, n)[i].i as int]).term.jmps@),
     decreases n
 {
     if n > 0 {
         lemma_cfg_return_nodes_bound(nodes, n - 1);
         let r0 = cfg_return_nodes(nodes, n - 1);
         let r = cfg_return_nodes(nodes, n);
-        assert forall |i: int| 0 <= i < r.len() implies (#[trigger] r[i]).i < n by {
+        assert forall |i: int| 0 <= i < r.len() implies (#[trigger] r[i]).i < n && nodes[r[i].i as int] is BlkEnd
+                && cfg_has_return_jmp(cfg_blk(nodes[r[i].i as int]).term.jmps@) by {
             if i < r0.len() { assert(r[i] == r0[i]); } else { assert(r[i] == cfg_ni(n - 1)); }
         }
     }
@@ -959,4 +962,30 @@ pub proof fn lemma_cfg_global<'a>(st: CfgSt<'a>, subs: Map<Tid, Term<Sub>>, ext:
 {
     let (ks, s2, n) = choose |ks: Seq<Tid>, s2: CfgSt<'a>, n: int| #[trigger] cfg_build_steps(ks, s2, n, st, subs, ext);
     lemma_cfg_global_steps(st, subs, ext, ks, s2, n);
+}
+
+// ---- the shape invariant on the returned graph -----------------------------------------------------------------------------------------
+
+/// the graph of a state that satisfies the representation invariant has the shape
+pub broadcast proof fn lemma_cfg_graph_shape<'a>(g: Graph<'a>, st: CfgSt<'a>, subs: Map<Tid, Term<Sub>>)
+    requires cfg_graph_of(g, st), cfg_inv(st, subs),
+    ensures #![trigger cfg_graph_of(g, st), cfg_inv(st, subs)] cfg_graph_shape(g),
+{
+    assert forall |e: int| 0 <= e < g.edge_seq().len() implies
+            cfg_edge_shape(cfg_nodes(g), CfgEdge { src: (#[trigger] g.edge_seq()[e]).0, dst: g.edge_seq()[e].1, w: g.edge_weight(e) }) by {
+        assert(cfg_edges(g)[e] == st.edges[e]);
+        assert(cfg_edge_shape(st.nodes, st.edges[e]));
+    }
+    assert forall |n: int| 0 <= n < g.node_count_spec() implies cfg_node_shape(#[trigger] g.node_weight(n)) by {
+        assert(cfg_nodes(g)[n] == st.nodes[n]);
+    }
+}
+
+/// EXPORTED: every graph get_program_cfg / get_program_cfg_with_logs / build returns (cfg_built) has the shape
+pub proof fn lemma_cfg_built_shape<'a>(g: Graph<'a>, subs: Map<Tid, Term<Sub>>, ext: Set<Tid>)
+    requires cfg_built(g, subs, ext),
+    ensures cfg_graph_shape(g),
+{
+    let st = choose |st: CfgSt<'a>| #[trigger] cfg_build_post(st, subs, ext) && cfg_graph_of(g, st) && cfg_inv(st, subs);
+    lemma_cfg_graph_shape(g, st, subs);
 }
